@@ -74,6 +74,10 @@ def bounds(tier):
                 "A_len5_6": "none",
                 "A_rules": "only with delta evaluation, <= 5 rule sets per "
                            "contracted subset",
+                "A_subsets_len4": "contracted subsets of size 0, 1, n-1, n; "
+                                  "{none, all} and no rule sets when a "
+                                  "general index is inside a normal-ordered "
+                                  "group",
                 "B_models": [[2, 2]], "B_max_class": "doubles"}
     return {"A_max_len": 4, "A_names_per_space": 3,
             "A_len5_6": "length 5 and balanced length 6 (<= 1 general operator) "
@@ -304,6 +308,16 @@ def _run_word(case):
             # reduced variant set of the long words: the two extreme
             # contracted subsets only
             subsets = [subsets[0], subsets[-1]]
+        elif _TIER[0] == "quick" and L >= 4:
+            if _general_in_no(word, groups):
+                # general index inside a normal-ordered group (sympy's split
+                # into occupied / virtual parts makes these calls expensive):
+                # the two extreme contracted subsets only
+                subsets = [subsets[0], subsets[-1]]
+            else:
+                # none, every single index, all but one, all
+                subsets = [C for C in subsets
+                           if len(C) <= 1 or len(C) >= len(names) - 1]
         for C in subsets:
             if True:
                 T = tuple(n for n in names if n not in C)
@@ -363,6 +377,8 @@ def _run_word(case):
                        f":d{int(delta)}", nontrivial, 1)
                     # ---- rules on the coefficient tensor
                     if not C or res == 0 or reduced:
+                        continue
+                    if _TIER[0] == "quick" and _general_in_no(word, groups):
                         continue
                     rule_sets = _rule_sets_a(C)
                     if _TIER[0] == "quick":
